@@ -12,20 +12,20 @@ From Verif.Spec Require Import C20.
 From Verif.Model Require Import Config.
 Open Scope Z_scope.
 
-Definition runner_one_prefix (answers : str -> bool) (host : envt) (src : source) (name : str)
+Definition runner_one_prefix (answers : str -> bool) (denv : envt) (src : source) (name : str)
   : list proc * Z :=
   match load_config src name with
   | Err _ => ([], 0)
-  | Ok d => connect answers host d            (* no unpacking *)
+  | Ok d => connect answers denv d            (* no unpacking *)
   end.
 
-Definition runner_prefix (answers : str -> bool) (host : envt) (src : source) (names : list str) : run_obs :=
-  let rs := map (runner_one_prefix answers host src) names in
+Definition runner_prefix (answers : str -> bool) (denv : envt) (src : source) (names : list str) : run_obs :=
+  let rs := map (runner_one_prefix answers denv src) names in
   RunObs (flat_map fst rs) (fold_right Z.add 0 (map snd rs)).
 
 Definition C20_runner_prefix_statement : Prop :=
-  forall answers host src names,
-    Spec_run answers (default_env host) src names (runner_prefix answers host src names).
+  forall answers denv src names,
+    Spec_run answers denv src names (runner_prefix answers denv src names).
 
 (** {"mcpServers": {"a": {"command": "x"}}}, names ["a"], a server that answers. *)
 Definition witness_cfg : json := JObj [ (k_mcpServers, JObj [ ([97], JObj [ (k_command, JStr [120]) ]) ]) ].
